@@ -3,13 +3,15 @@ import LettreVerif.Model.Builder
 import LettreVerif.Model.Date
 import LettreVerif.Proofs.Date
 import LettreVerif.Proofs.Peg
+import LettreVerif.Proofs.DateText
 /-!
 # C17 — Mailboxes and typed headers read back equal to what was stored
 
 Proved here: the header map part (lookup, replacement and removal are case-insensitive, one
 entry per name), the Date arithmetic round trip for every instant (`date_roundtrip`: the civil
 fields the header shows are mapped back to the same second; the calendar fields are in range and
-the weekday is the right one), and the **mailbox grammar round trip**: for every
+the weekday is the right one), the text of the Date header (`date_header_roundtrip`: what `Display`
+writes, `Date::parse` reads back to the same second, up to year 9999), and the **mailbox grammar round trip**: for every
 mailbox whose address is in `GoodAddr` (local part a dot-atom of the grammar or a quoted string, domain a
 dot-atom or a bracketed literal, accepted by `Address::new`) and *every* display name, what `Display` writes is parsed back by the PEG transcription of the
 grammar to an equal mailbox — the same address, and a name that normalises to the stored one
@@ -89,6 +91,18 @@ theorem date_time_of_day (t : Nat) :
     (`SystemTime::from(HttpDate)`, what `Headers::get::<Date>()` returns after parsing).  No bound on `t`:
     the 400-year cycle argument covers every year, not only 1970..9999. -/
 theorem date_roundtrip (t : Nat) : Date.toSecs (Date.civil t) = t := DateProof.toSecs_civil t
+
+/-- **The Date header is read back to the second, text included.** For every instant `t` up to the end of year 9999:
+    the header value lettre writes (`Display for HttpDate`, `GMT` replaced by `+0000`: `Model/DateText.lean`) is accepted
+    by `Date::parse` (`+0000` back to `GMT`, `parse_imf_fixdate`, `is_valid`) and gives back the civil fields of `t`,
+    which `SystemTime::from` maps to exactly `t`. -/
+theorem date_header_roundtrip (t : Nat) (h : (Date.civil t).year ≤ 9999) :
+    (DateText.parseHeader (DateText.renderB (Date.civil t))).map Date.toSecs = some t := by
+  have := DateText.date_text_roundtrip t h
+  rw [this.1]; simp [this.2]
+
+/-- the year is never before 1970 -/
+theorem date_year_ge_1970 (t : Nat) : 1970 ≤ (Date.civil t).year := DateText.civil_year_ge t
 
 /-- distinct instants never print the same civil fields -/
 theorem date_injective (t u : Nat) (h : Date.civil t = Date.civil u) : t = u := by
